@@ -167,9 +167,7 @@ class ProductDomain(Domain):
             b_points = self.domain_b.sample_random_uniform(n=n, params=new_params)
             if len(self.domain_b.necessary_variables) > 0:
                 # points need to be sampled in every call to this function
-                volume_a = self.domain_a.volume(
-                    b_points.join(new_params), device=device
-                )
+                volume_a = self._volume_a_per_point(b_points.join(new_params), device)
                 reshape_volume = volume_a.reshape(N_APPROX_VOLUME, -1)
                 mean_volume = torch.sum(reshape_volume, dim=0) / N_APPROX_VOLUME
                 return mean_volume.reshape(-1, 1) * self.domain_b.volume(
@@ -185,8 +183,8 @@ class ProductDomain(Domain):
                     )
                     return (
                         torch.sum(
-                            self.domain_a.volume(
-                                b_points.join(new_params), device=device
+                            self._volume_a_per_point(
+                                b_points.join(new_params), device
                             ).reshape(N_APPROX_VOLUME, -1),
                             dim=0,
                         )
@@ -201,12 +199,21 @@ class ProductDomain(Domain):
             else:
                 # we can compute the volume only once and save it
                 volume = sum(
-                    (self.domain_a.volume(b_points, device=device))
+                    (self._volume_a_per_point(b_points, device))
                     / N_APPROX_VOLUME
                     * self.domain_b.volume(device=device)
                 )
                 self.set_volume(volume)
                 return torch.repeat_interleave(volume, max(1, len(params)), dim=0)
+
+    def _volume_a_per_point(self, points, device):
+        """Volume of domain_a for every given point of domain_b. (A domain whose volume
+        does not depend on the points, e.g. a shape that is only moved, returns a
+        single row.)"""
+        volume_a = self.domain_a.volume(points, device=device)
+        if len(volume_a) == 1 and len(points) > 1:
+            volume_a = volume_a.repeat(len(points), 1)
+        return volume_a
 
     def sample_grid(self, n=None, d=None, params=Points.empty(), device="cpu"):
         raise NotImplementedError(
